@@ -91,15 +91,24 @@ Section iteration.
   Lemma inputs_io_of io : io ∈ inputs c → io ∈ io_of c.
   Proof. unfold io_of. set_solver. Qed.
 
-  Lemma unroll_iter_inv j U m U' m' : j < n → unroll_inv j U m →
-    unroll_iter C sio prefix ios (U, Done, m) j = (U', Done, m') → unroll_inv (S j) U' m'.
+  Lemma iter_facts j U m g1 m1 U2 : j < n → unroll_inv j U m →
+    foldl (add_ios (c_g C) sio prefix j) (c_g U, Done, m) ios = (g1, Done, m1) →
+    add_subcircuit (with_g U g1) C (inst_name j) ((λ i, (i, [io_name i prefix j])) <$> ios) = (U2, Done) →
+    (∀ io, io ∈ ios → g1 !! io_name io prefix j = Some (mk_node (io_type c sio io) (is_output c io) ∅) ∧ io_name io prefix j ∉ dom (c_g U)) ∧
+    (∀ a b, a ∈ ios → b ∈ ios → io_name a prefix j = io_name b prefix j → a = b) ∧
+    (∀ io, m1 !! io = if decide (io ∈ ios) then Some (default [] (m !! io) ++ [io_name io prefix j])%list else m !! io) ∧
+    (∀ y, y ∈ dom c → pre (inst_name j) y ∉ dom g1) ∧
+    c_name U2 = c_name U ∧ c_bbs U2 = kmap (pre (inst_name j)) (c_bbs C) ∪ c_bbs U ∧
+    (∀ io, io ∈ ios → io_name io prefix j ∈ dom g1) ∧
+    (∀ x, x ∈ dom (c_g U) → c_g U2 !! x = c_g U !! x) ∧
+    (∀ io, io ∈ io_of c → c_g U2 !! io_name io prefix j =
+              Some (mk_node (io_type c sio io) (is_output c io) (if decide (io ∈ inputs c) then ∅ else {[pre (inst_name j) io]}))) ∧
+    (∀ y info, c !! y = Some info → c_g U2 !! pre (inst_name j) y = Some (ucopy_info prefix j y info)) ∧
+    (∀ x, x ∈ dom (c_g U2) → x ∈ dom (c_g U) ∨ (∃ io, io ∈ io_of c ∧ x = io_name io prefix j) ∨ (∃ y, y ∈ dom c ∧ x = pre (inst_name j) y)).
   Proof.
-    intros Hjn [Hnm Hb Hio Hcopy Hdom Hmap]. unfold unroll_iter.
-    destruct (foldl (add_ios (c_g C) sio prefix j) (c_g U, Done, m) ios) as [[g1 o1] m1] eqn:E1.
-    destruct o1 as [|e]; [|done].
+    intros Hjn [Hnm Hb Hio Hcopy Hdom Hmap] E1 E2.
     apply add_ios_fold_done in E1 as (N1 & N2 & Ninj & Nm); [|done|intros io Hio'; apply Hfreshc; [done|by apply Hios]].
     fold c in N1, N2, Ninj, Nm.
-    destruct (add_subcircuit (with_g U g1) C (inst_name j) _) as [U2 o2] eqn:E2. destruct o2 as [|e]; [|done].
     apply add_subcircuit_inv in E2 as (_ & Hfresh & _ & Hname & Hbb2 & Hfold). simpl in Hfresh, Hname, Hbb2, Hfold.
     fold c in Hfresh, Hfold.
     set (nm := inst_name j) in *.
@@ -155,6 +164,18 @@ Section iteration.
         + right; left. exists io. split; [by apply Hios|done].
         + left. apply elem_of_dom. rewrite <- N2; [by apply elem_of_dom|]. intros io Hio' ->. apply Hno, Exists_exists. eauto.
       - right; right. exists y. split; [|done]. unfold strip_io in Hy. by rewrite dom_fmap in Hy. }
+    done.
+  Qed.
+
+  Lemma unroll_iter_inv j U m U' m' : j < n → unroll_inv j U m →
+    unroll_iter C sio prefix ios (U, Done, m) j = (U', Done, m') → unroll_inv (S j) U' m'.
+  Proof.
+    intros Hjn Hinv. pose proof Hinv as [Hnm Hb Hio Hcopy Hdom Hmap]. unfold unroll_iter.
+    destruct (foldl (add_ios (c_g C) sio prefix j) (c_g U, Done, m) ios) as [[g1 o1] m1] eqn:E1.
+    destruct o1 as [|e]; [|done].
+    destruct (add_subcircuit (with_g U g1) C (inst_name j) _) as [U2 o2] eqn:E2. destruct o2 as [|e]; [|done].
+    destruct (iter_facts j U m g1 m1 U2 Hjn Hinv E1 E2) as (N1 & Ninj & Nm & Hfresh & Hname & Hbb2 & Hnew_g1 & G_old & G_io & G_copy & G_dom).
+    set (nm := inst_name j) in *. set (g2 := c_g U2) in *.
     (* the state step: its targets are the step-j nodes of the state inputs *)
     assert (Hfin : ∀ g3, (∀ x, (∀ kv, kv ∈ sio → x ≠ io_name kv.2 prefix j) → g3 !! x = g2 !! x) →
                    (∀ kv, kv ∈ sio → g3 !! io_name kv.2 prefix j = Some (io_node c sio prefix j kv.2)) →
